@@ -11,6 +11,7 @@ from hashlib import sha1
 import json
 import logging
 import os
+import threading
 
 import six
 from six.moves.urllib.parse import urlparse
@@ -57,6 +58,7 @@ class WebSocket(object):
             self.closed = False
             self.sent_close_time = None
             self.compression = None
+            self.compress_lock = threading.Lock()
 
     def __init__(self,
                  url,
@@ -480,8 +482,11 @@ class WebSocket(object):
         if not isinstance(data, bytes):
             raise TypeError('data argument must be bytes')
         if compress and self.state.compression:
-            _payload = self.state.compression.compress(data)
-            self.session.send_compressed(Opcode.BINARY, _payload)
+            # The compression context is shared by all messages, frames
+            # must go out in the order they were compressed.
+            with self.state.compress_lock:
+                _payload = self.state.compression.compress(data)
+                self.session.send_compressed(Opcode.BINARY, _payload)
         else:
             self.session.send(Opcode.BINARY, data)
 
@@ -524,8 +529,11 @@ class WebSocket(object):
             raise TypeError('text argument must not be bytes')
         payload = text.encode('utf-8')
         if compress and self.state.compression:
-            _payload = self.state.compression.compress(payload)
-            self.session.send_compressed(Opcode.TEXT, _payload)
+            # The compression context is shared by all messages, frames
+            # must go out in the order they were compressed.
+            with self.state.compress_lock:
+                _payload = self.state.compression.compress(payload)
+                self.session.send_compressed(Opcode.TEXT, _payload)
         else:
             self.session.send(Opcode.TEXT, payload)
 
